@@ -8,7 +8,7 @@ META = {
     "technique": "Coq proof over R of admissibility of the force law (Model/ConstraintUpdate.v, shared with C12) and of the pyramid "
                  "decode / contact-force slice laws + float correspondence runs against mj_constraintUpdate_impl, mj_contactForce, "
                  "mju_encodePyramid/mju_decodePyramid + admissibility oracle on efc_force after mj_forward for every solver and cone",
-    "text": "PROVED over R for the model Model/ConstraintUpdate.v of the force law mj_constraintUpdate_impl (shared with C12), for every row composition, contact dimension and residual vector meeting cu_wf with positive efc_D and non-zero friction coefficients: C11_admissible — friction-loss rows |f| <= frictionloss; limit, frictionless and pyramidal rows f >= 0; elliptic contacts f0 >= 0 and sum_j (f_j/friction_j)^2 <= f0^2 in every zone (equality in the middle zone); the three row kinds also separately (C11_friction_bound, C11_unilateral, C11_elliptic). C11_decode_cone: mju_decodePyramid of non-negative edge forces lies in the friction pyramid; C11_decode_encode: decode(encode(f)) = f exactly on the forces with f[i+1]/mu[i] <= f[0]/(dim-1) (encodePyramid clips from above only, so it is NOT an inverse outside that set — observed on about a quarter of the engine's pyramidal contacts; no property clause depends on it); C11_contact_force: mj_contactForce for elliptic cones is the zero-padded efc_force slice at efc_address with the contact's adhesion subtracted from the normal. C11_noslip_friction / C11_noslip_pyramid: the dry-friction row update of solNoSlip/solPGS (force and bound of the same efc row) stays within [-frictionloss, frictionloss] and equals mju_clip; the noslip update of a pair of opposing pyramid edges keeps both edges >= 0 and their sum. TIED: a fail-closed reader of those projections in engine_solver.c (accepted spellings only, same-row index), mju_clip bit-exact against the model, float runs of the model against mj_constraintUpdate_impl (engine states), mj_contactForce, mju_decodePyramid, mju_encodePyramid; and the observation that after CG/Newton efc_force equals the force law at jar = J*qacc - aref (1e-6). ORACLE on implementation output after mj_forward for PGS, CG, Newton x pyramidal, elliptic on two model families: mjgen models (noslip, islands on/off, adhesion, saturating loads on some seeds) and an island family (2-5 disconnected jointed trees plus resting free bodies, each its own island, frictionloss / friction / condim differing per island in ascending, descending, random and one-large patterns, saturating loads, noslip 0/3/5/20/50, per-island and monolithic solves) so that island-local row positions differ from efc indices: all inequalities with 1e-9 slack, qfrc_constraint = J' efc_force (mj_mulJacTVec, 1e-9), mj_contactForce consistent with efc_force. NOT PROVED: that the PGS / noslip iterates are admissible (projectCone is C10's subject) and that solvers terminate with the force-law output — both are observed by the oracle/tie only; qfrc_constraint = J' f is oracle only; floating-point rounding.",
+    "text": "PROVED over R for the model Model/ConstraintUpdate.v of the force law mj_constraintUpdate_impl (shared with C12), for every row composition, contact dimension and residual vector meeting cu_wf with positive efc_D and non-zero friction coefficients: C11_admissible — friction-loss rows |f| <= frictionloss; limit, frictionless and pyramidal rows f >= 0; elliptic contacts f0 >= 0 and sum_j (f_j/friction_j)^2 <= f0^2 in every zone (equality in the middle zone); the three row kinds also separately (C11_friction_bound, C11_unilateral, C11_elliptic). C11_decode_cone: mju_decodePyramid of non-negative edge forces lies in the friction pyramid; C11_decode_encode: decode(encode(f)) = f exactly on the forces with f[i+1]/mu[i] <= f[0]/(dim-1) (encodePyramid clips from above only, so it is NOT an inverse outside that set — observed on about a quarter of the engine's pyramidal contacts; no property clause depends on it); C11_contact_force: mj_contactForce for elliptic cones is the zero-padded efc_force slice at efc_address with the contact's adhesion subtracted from the normal. C11_contact_addresses / C11_contact_force_rowless: in the model of mj_instantiateContact's bookkeeping a contact has efc_address >= 0 exactly when it is included, its address is the first of its own rows, excluded contacts (in the gap, no dofs affected, passive) get -1, and mj_contactForce of a contact without address is zero (tied by an exact run against efc_address / exclude / mj_contactForce of every contact of the engine records). C11_noslip_friction / C11_noslip_pyramid: the dry-friction row update of solNoSlip/solPGS (force and bound of the same efc row) stays within [-frictionloss, frictionloss] and equals mju_clip; the noslip update of a pair of opposing pyramid edges keeps both edges >= 0 and their sum. TIED: a fail-closed reader of those projections in engine_solver.c (accepted spellings only, same-row index), mju_clip bit-exact against the model, float runs of the model against mj_constraintUpdate_impl (engine states), mj_contactForce, mju_decodePyramid, mju_encodePyramid; and the observation that after CG/Newton efc_force equals the force law at jar = J*qacc - aref (1e-6). ORACLE on implementation output after mj_forward for PGS, CG, Newton x pyramidal, elliptic on two model families: mjgen models (noslip, islands on/off, adhesion, saturating loads on some seeds) and an island family (2-5 disconnected jointed trees plus resting free bodies, each its own island, frictionloss / friction / condim differing per island in ascending, descending, random and one-large patterns, saturating loads, noslip 0/3/5/20/50, per-island and monolithic solves) so that island-local row positions differ from efc indices: all inequalities with 1e-9 slack, qfrc_constraint = J' efc_force (mj_mulJacTVec, 1e-9), mj_contactForce consistent with efc_force, where a contact's rows are identified from efc_type / efc_id alone (not from efc_address): the rows naming contact c must be the right number of contiguous rows of the right type starting at contact[c].efc_address of an included contact, and a contact that owns no rows (static-static or same-body explicit pairs under a sparse Jacobian, in-gap pairs) must have efc_address = -1, exclude != 0 and a zero mj_contactForce; both families vary the Jacobian option (dense / sparse / auto) and the island family places such row-less contacts before and after ordinary ones. NOT PROVED: that the PGS / noslip iterates are admissible (projectCone is C10's subject) and that solvers terminate with the force-law output — both are observed by the oracle/tie only; qfrc_constraint = J' f is oracle only; floating-point rounding.",
     "note": "Trusted: Coq kernel + std-lib real-number axioms; hand-written model Model/ConstraintUpdate.v; correspondence harness "
             "(gcc, drivers c11_forces.c / c12_update.c, Coq PrimFloat evaluation). IEEE rounding is outside every theorem.",
     "assumptions": ["theorems are over the real numbers; float runs of the same definitions are compared with a scaled tolerance",
@@ -24,8 +24,8 @@ def parse_records(out):
         t = line.split()
         if not t or t[0] != "F":
             continue
-        seed, cone, solver, noslip, island, adhes, step, nv, ne, nf, nefc, ncon, niter, nisland = [int(x) for x in t[1:15]]
-        p = 15
+        seed, cone, solver, noslip, island, adhes, step, nv, ne, nf, nefc, ncon, niter, nisland, sparse = [int(x) for x in t[1:16]]
+        p = 16
         def nums(n):
             nonlocal p
             v = [float.fromhex(x) for x in t[p:p + n]]; p += n
@@ -40,14 +40,14 @@ def parse_records(out):
         qfrc, jtf = nums(nv), nums(nv)
         con = []
         for c in range(ncon):
-            dim = ints(1)[0]; mu = nums(1)[0]; fr = nums(5); adr = ints(1)[0]; adh = nums(1)[0]; cf = nums(6); rt = nums(6)
-            con.append({"dim": dim, "mu": mu, "fr": fr, "adr": adr, "adhesion": adh, "cf": cf, "rt": rt})
+            dim = ints(1)[0]; mu = nums(1)[0]; fr = nums(5); adr = ints(1)[0]; exc = ints(1)[0]; adh = nums(1)[0]; cf = nums(6); rt = nums(6)
+            con.append({"dim": dim, "mu": mu, "fr": fr, "adr": adr, "exclude": exc, "adhesion": adh, "cf": cf, "rt": rt})
         cfg = CU.finish_cfg({"ne": ne, "nf": nf, "D": D, "R": R, "fl": floss, "type": tp, "id": idd, "con": con, "jar": jar, "related": True,
-                             "src": "%s seed=%d cone=%s solver=%s noslip=%d island=%d nisland=%d adhesion=%d step=%d" % (
+                             "src": "%s seed=%d cone=%s solver=%s noslip=%d island=%d nisland=%d sparse=%d adhesion=%d step=%d" % (
                                  "islands(c11)" if seed >= 1000000 else "mjgen(c11)", seed % 1000000,
-                                 "elliptic" if cone else "pyramidal", SOLVER.get(solver, solver), noslip, island, nisland, adhes, step)})
+                                 "elliptic" if cone else "pyramidal", SOLVER.get(solver, solver), noslip, island, nisland, sparse, adhes, step)})
         recs.append({"cfg": cfg, "seed": seed, "cone": cone, "solver": solver, "noslip": noslip, "island": island, "adhes": adhes, "step": step,
-                     "force": force, "state": state, "qfrc": qfrc, "jtf": jtf, "niter": niter, "nisland": nisland})
+                     "force": force, "state": state, "qfrc": qfrc, "jtf": jtf, "niter": niter, "nisland": nisland, "sparse": sparse})
     return recs
 
 
@@ -211,13 +211,42 @@ def run(ctx):
             viol("qfrc=JTf", None, "qfrc_constraint = J' efc_force", {"max_abs_diff": dmax}, "C11 qfrc_constraint")
         else:
             stats.add("qfrc=JTf")
+        # contact <-> efc row bookkeeping, stated from the efc arrays alone (efc_type / efc_id), not from efc_address:
+        # the rows whose efc_id names contact c are contact c's rows
+        own = {}
+        for i in range(cfg["ne"] + cfg["nf"], cfg["nefc"]):
+            if cfg["type"][i] in (5, 6, 7):
+                own.setdefault(cfg["id"][i], []).append(i)
+        for cid, rows in own.items():
+            okc = 0 <= cid < len(cfg["con"])
+            if okc:
+                cn = cfg["con"][cid]
+                want = 1 if cn["dim"] == 1 else (cn["dim"] if r["cone"] else 2 * (cn["dim"] - 1))
+                wtype = 5 if cn["dim"] == 1 else (7 if r["cone"] else 6)
+                okc = (rows == list(range(rows[0], rows[0] + want)) and all(cfg["type"][i] == wtype for i in rows)
+                       and cn["adr"] == rows[0] and cn["exclude"] == 0)
+            if not okc:
+                viol("contact-rows", rows[0], "the efc rows with efc_id = c are dim (elliptic) / 2(dim-1) (pyramidal) / 1 contiguous rows of the right type starting at "
+                     "contact[c].efc_address of an included contact", {"contact": cid, "rows": rows, "contact_record": ({k: cfg["con"][cid][k] for k in ("dim", "adr", "exclude")} if 0 <= cid < len(cfg["con"]) else None)},
+                     "C11_contact_addresses")
+            else:
+                stats.add("contact-rows")
         # mj_contactForce
         for ci, con in enumerate(cfg["con"]):
             adr, dim, cf = con["adr"], con["dim"], con["cf"]
-            if adr < 0:
+            rows = own.get(ci)
+            if rows is None:
+                # a contact that owns no efc rows (in the gap, no dofs affected, passive): no force, no address
                 if any(x != 0 for x in cf):
-                    viol("contactForce", None, "zero result for a contact without efc rows", cf, "C11_contact_force")
+                    viol("contactForce-rowless", None, "mj_contactForce = 0 for a contact that owns no efc rows (exclude = %d)" % con["exclude"],
+                         {"contact": ci, "result": cf, "efc_address": adr, "exclude": con["exclude"]}, "C11_contact_force")
+                elif adr != -1 or con["exclude"] == 0:
+                    viol("contact-rows", None, "efc_address = -1 and exclude != 0 for a contact that owns no efc rows", {"contact": ci, "efc_address": adr, "exclude": con["exclude"]},
+                         "C11_contact_addresses")
+                else:
+                    stats.add("contactForce row-less contact (exclude %d)" % con["exclude"])
                 continue
+            adr = rows[0]
             if r["cone"] == 0:
                 exp = decode_py(f[adr:adr + (1 if dim == 1 else 2 * (dim - 1))], con["fr"], dim)
             else:
@@ -225,7 +254,7 @@ def run(ctx):
             exp = exp + [0.0] * (6 - len(exp))
             exp[0] -= con["adhesion"]
             if not all(abs(a - b) <= 1e-12 * (1 + abs(b)) for a, b in zip(cf, exp)):
-                viol("contactForce", adr, "mj_contactForce = contact-frame force of the efc_force rows at efc_address (minus adhesion)", {"result": cf, "expected": exp}, "C11_contact_force")
+                viol("contactForce", adr, "mj_contactForce = contact-frame force of the contact's efc_force rows (minus adhesion)", {"contact": ci, "result": cf, "expected": exp}, "C11_contact_force")
             else:
                 stats.add("contactForce " + ("elliptic" if r["cone"] else "pyramidal"))
             if r["cone"] == 0 and dim > 1:
@@ -311,6 +340,40 @@ Definition chk_cf (c : bool * list float * list float * Z * float * list float *
                       observed=meta[i]["contactForce"], found_input=False, theorem="correspondence mj_contactForce, mju_decodePyramid, mju_encodePyramid",
                       signature={"site": "mj_contactForce"})
     tm["correspondence"] = round(time.time() - t0, 1)
+    # (e) efc_address bookkeeping of mj_instantiateContact and the gate of mj_contactForce against the model
+    alits, ameta = [], []
+    for r in recs:
+        cfg = r["cfg"]
+        if not cfg["con"]:
+            continue
+        start = sum(1 for t in cfg["type"] if t < 5)
+        cs = []
+        for cn in cfg["con"]:
+            n = 1 if cn["dim"] == 1 else (cn["dim"] if r["cone"] else 2 * (cn["dim"] - 1))
+            cs.append("(%d, %d)" % (cn["exclude"], n))
+        zero_cf = "[" + "; ".join("true" if all(x == 0 for x in cn["cf"]) else "false" for cn in cfg["con"]) + "]"
+        alits.append("(%d, [%s], %s, %s)" % (start, "; ".join(cs), F.zlist([cn["adr"] for cn in cfg["con"]]), zero_cf))
+        ameta.append({"src": cfg["src"], "replay": {"seed": r["seed"], "step": r["step"]}, "contacts": [{k: cn[k] for k in ("dim", "adr", "exclude")} for cn in cfg["con"]]})
+    if len(alits) > (600 if quick else 3000):
+        idx = sorted(ctx.rng.sample(range(len(alits)), 600 if quick else 3000))
+        alits, ameta = [alits[i] for i in idx], [ameta[i] for i in idx]
+    apre = """
+Open Scope Z_scope.
+Fixpoint gate_ok (adrs : list Z) (zs : list bool) : bool :=
+  match adrs, zs with
+  | a :: adrs', z :: zs' => andb (if a <? 0 then z else true) (gate_ok adrs' zs')
+  | nil, nil => true
+  | _, _ => false
+  end.
+Definition chk_adr (c : Z * list (Z * Z) * list Z * list bool) : bool :=
+  match c with (start, cs, adrs, zs) => andb (zlist_eqb (contact_addresses start cs) adrs) (gate_ok (contact_addresses start cs) zs) end.
+"""
+    afails = ctx.coq_eval("c11adr", "From Coq Require Import ZArith List Bool.\nFrom MJV Require Import Lib.Eqb Model.ConstraintUpdate.", alits, "chk_adr", pre=apre, shard=300)
+    for i in afails[:3]:
+        ctx.violation("correspondence", ameta[i], expected="contact_addresses of Model/ConstraintUpdate.v (efc_address of every contact; zero mj_contactForce for contacts without address)",
+                      observed=ameta[i]["contacts"], found_input=False, theorem="correspondence mj_instantiateContact efc_address (C11_contact_addresses)",
+                      signature={"site": "mj_instantiateContact"})
+    ctx.cov["support"]["contact_address_correspondence_records"] = len(alits)
     # (d) the per-row projections of the dual solvers: source text + mju_clip against the model
     ntie = source_tie(ctx)
     trip = []
@@ -357,7 +420,7 @@ Definition chk_cf (c : bool * list float * list float * Z * float * list float *
                        "hinge/slide, limits, fixed tendons with friction loss) whose frictionloss values ascend / descend / are random / have one large among small across "
                        "trees, 0-3 resting free bodies (sphere/box/capsule, condim 1/3/4/6, own friction, shallow or deep penetration), saturating loads, "
                        "solver = seed mod 3, cone = seed/3 mod 2, noslip in {20,5,0,20,3,50}, islands disabled for seed mod 8 = 7; every tree / body is its own island, "
-                       "so island-local row positions differ from efc indices; "
+                       "so island-local row positions differ from efc indices; jacobian option dense/sparse/auto by seed; 0-2 static blocks declared before and 0-2 after the floor with explicit floor pairs (condim 1/3/4/6, some only in the gap) and a free body with an explicit pair between two of its own geoms: contacts that own no efc rows; "
                        "non-trivial = record with at least one contact and a non-zero constraint force")
     ctx.cov["solver_cone_records"] = combos
     ctx.cov["oracle_checks"] = stats.as_dict()
